@@ -269,3 +269,44 @@ package dragonboat
 //@ nobounds
 //@ modifies gClosedProposals, gClosedReads, gClosedCC, gClosedSS, gClosedLQ
 //@ ensures gClosedProposals && gClosedReads && gClosedCC && gClosedSS && gClosedLQ
+
+// ---------------------------------------------------------------- start-up clean-up of snapshot directories (C16)
+// From the property: after the clean-up the snapshot recorded in the log store still exists on
+// disk. gRecordedIndex is the index of that snapshot (0 = none recorded);
+// uf finalidx(path) is the snapshot index of a FINAL snapshot directory path (0 for any other path).
+//@ ghost var gRecordedIndex int
+//@ func (s *snapshotter) GetSnapshotFromLogDB [C16]
+//@ trusted reads the snapshot record from the log store (defines gRecordedIndex)
+//@ ensures result1 == nil ==> result0.Index == gRecordedIndex && gRecordedIndex != 0
+//@ ensures result1 != nil && errIs(result1, ErrNoSnapshot) ==> gRecordedIndex == 0
+// the final directory of the recorded snapshot is never removed
+//@ func (s *snapshotter) remove [C16]
+//@ trusted removes the final directory of the snapshot with the given index
+//@ requires index != gRecordedIndex
+//@ extern github.com/lni/vfs (fs FS) RemoveAll
+//@ requires gRecordedIndex == 0 || uf("finalidx", name) != gRecordedIndex
+//@ extern github.com/lni/vfs (fs FS) PathJoin
+//@ ensures len(elem) == 2 ==> result == uf("join2", elem[0], elem[1])
+//@ extern github.com/lni/vfs (fs FS) List
+//@ extern github.com/lni/vfs (fs FS) Stat
+//@ extern io/fs (fi FileInfo) IsDir
+//@ extern io/fs (fi FileInfo) Name
+//@ ensures result == uf("finame", obj(fi))
+// classification of directory names: temporary (zombie) names are never final names; a final
+// name carries its snapshot index
+//@ func (s *snapshotter) isZombie [C16]
+//@ trusted regular expression match on the directory name
+//@ ensures result ==> uf("finalidx", uf("join2", s.dir, dir)) == 0
+//@ func (s *snapshotter) isOrphan [C16]
+//@ trusted final-named directory that still carries a flag file
+//@ func (s *snapshotter) isSnapshot [C16]
+//@ trusted final-named directory without a flag file
+//@ func (s *snapshotter) parseIndex [C16]
+//@ trusted parses the index out of a final directory name
+//@ ensures uf("finalidx", uf("join2", s.dir, dir)) == result
+//@ func (s *snapshotter) getEnv [C16]
+//@ trusted pure construction
+
+//@ func (s *snapshotter) processOrphans [C16]
+//@ noframe
+//@ nobounds
